@@ -482,6 +482,11 @@ pub fn run(args: &Args, report: &mut Report) {
         let v: Value = serde_json::from_str(&std::fs::read_to_string(path).expect("replay file")).expect("json");
         progs = vec![prog_from_json(&v["input"])];
     } else {
+        let t = template_progs(args.thorough());
+        report.extra.insert("exhaustive_scope".into(), json!(format!(
+            "{} programs: every placement of one suppression comment (3 kinds x own-line/trailing x 6 lines x 4 code lists x trailing newline or not) in a 6-line template with a call at column 0 of every line and {} do-end block layouts (calls outside and inside on the opener/closer lines); enumerated completely, in addition to the random stream",
+            t.len(), if args.thorough() { "all 15 + none" } else { "2 + none" })));
+        progs.extend(t);
         let n = if args.thorough() { 30_000 } else { 700 };
         for i in 0..n {
             let size = 2 + (i % 9) as i32;
@@ -624,6 +629,78 @@ pub fn run(args: &Args, report: &mut Report) {
         report.add("suppressed_by_oracle", (c.raw.len() - expected.len()) as u64);
         report.sample(json!({"text": c.prog.text, "raw": c.raw.len(), "reported": c.actual.len()}));
     }
+}
+
+/// Exhaustive placements in a 6-line template: every line carries a call at column 0 (`gI()`), optionally a
+/// `do … end` block from line a to line b (`gA() do hA()` … `hB() end gB()`: calls outside and inside on the
+/// opener and closer lines); one suppression comment of every kind × own-line/trailing × every line ×
+/// {no codes, matching, other, unknown+matching} × with/without trailing newline.
+pub fn template_progs(full: bool) -> Vec<Prog> {
+    let mut out = Vec::new();
+    let mut blocks: Vec<Option<(usize, usize)>> = vec![None];
+    for a in 0..6 {
+        for b in a + 1..6 {
+            if full || (a, b) == (1, 4) || (a, b) == (2, 3) {
+                blocks.push(Some((a, b)));
+            }
+        }
+    }
+    let code_sets: [Option<Vec<&str>>; 4] =
+        [None, Some(vec!["undefined-global"]), Some(vec!["unused"]), Some(vec!["no-such-code", "undefined-global"])];
+    for blk in &blocks {
+        for kind in ['n', 'l', 'd'] {
+            for own_line in [true, false] {
+                for k in 0..6usize {
+                    if own_line && blk.map(|(a, b)| k == a || k == b).unwrap_or(false) {
+                        continue;
+                    }
+                    for codes in &code_sets {
+                        for newline in [true, false] {
+                            let word = match kind {
+                                'n' => "disable-next-line",
+                                'l' => "disable-line",
+                                _ => "disable",
+                            };
+                            let tag = match codes {
+                                None => format!("---@diagnostic {word}"),
+                                Some(cs) => format!("---@diagnostic {word}: {}", cs.join(", ")),
+                            };
+                            let mut lines: Vec<String> = (0..6).map(|i| format!("g{i}()")).collect();
+                            let mut gblocks = vec![GBlock { open: (0, 0), close: None, top: true, has_stmt: true }];
+                            let mut tag_block = 0;
+                            if let Some((a, b)) = *blk {
+                                lines[a] = format!("g{a}() do h{a}()");
+                                lines[b] = format!("h{b}() end g{b}()");
+                                gblocks.push(GBlock { open: (a as u32, 7), close: Some((b as u32, 5)), top: false, has_stmt: true });
+                                if (a < k && k < b) || k == a {
+                                    tag_block = 1;
+                                }
+                            }
+                            let start;
+                            if own_line {
+                                lines[k] = tag.clone();
+                                start = (k as u32, 0);
+                            } else {
+                                start = (k as u32, lines[k].len() as u32 + 1);
+                                lines[k] = format!("{} {}", lines[k], tag);
+                            }
+                            let mut text = lines.join("\n");
+                            if newline {
+                                text.push('\n');
+                            }
+                            out.push(Prog {
+                                text,
+                                tags: vec![GTag { kind, codes: codes.as_ref().map(|c| c.iter().map(|x| x.to_string()).collect()), start, last_line: k as u32, block: tag_block }],
+                                blocks: gblocks,
+                                shape: vec!["template"],
+                            });
+                        }
+                    }
+                }
+            }
+        }
+    }
+    out
 }
 
 fn corpus() -> Vec<Prog> {
